@@ -63,6 +63,14 @@ func buildBase(t *testing.T) {
 		r := newRig(true)
 		base.art = map[string]*artifactsT{}
 		fail := func(f string, args ...any) { base.err = fmt.Sprintf(f, args...) }
+		// every request that carries an assertion goes to a provider of its own (continuing on the
+		// same storage state), so that preparing the state does not presuppose what part
+		// history-endpoint examines
+		fresh := func() {
+			st := r.Core.St
+			r = newRig(true)
+			r.Core.Reset(st)
+		}
 		pan := engine.Bubble(t, 0, func() {
 			for _, id := range []string{A, B} {
 				a := &artifactsT{}
@@ -75,6 +83,7 @@ func buildBase(t *testing.T) {
 				for k := range r.Core.St.Tokens {
 					before[k] = true
 				}
+				fresh()
 				tr := r.Token(0, url.Values{"grant_type": {"authorization_code"}, "code": {code1}, "redirect_uri": {redirectOf(id)},
 					"client_assertion": {validAssertion(id, engine.Epoch)}, "client_assertion_type": {atypeJWT}}, "")
 				a.access, a.refresh = tr.Str("access_token"), tr.Str("refresh_token")
@@ -92,6 +101,7 @@ func buildBase(t *testing.T) {
 					fail("base: no second code for %s: %d %s", id, resp.Status, resp.Body)
 					return
 				}
+				fresh()
 				da := r.Do(0, rig.Req("POST", "/device_authorization", url.Values{"scope": {"openid"},
 					"client_assertion": {validAssertion(id, engine.Epoch)}, "client_assertion_type": {atypeJWT}}, nil))
 				a.deviceCode = da.Str("device_code")
@@ -154,8 +164,10 @@ func runEndpoint(t *testing.T, c *engine.Check) {
 			return sp.Get(v, "op") == "bearer" && (sp.Get(v, "atype") != "jwt-bearer" || sp.Get(v, "cid") != "absent")
 		},
 		NewWorker: func(int) func(engine.Vec) engine.Result {
-			r := newRig(true)
 			return func(v engine.Vec) engine.Result {
+				// a provider of its own for every execution: the verdict of a case must not depend on
+				// what the instance served before (that is the business of part history-endpoint)
+				r := newRig(true)
 				g := func(n string) string { return sp.Get(v, n) }
 				a := decodeAssertion(g)
 				now := eT0.Add(mustDur(g("phase")))
